@@ -279,7 +279,8 @@ class MicroTables:
 def build_tables(p, cache_dir=None, procs=None):
     global _CTX
     if cache_dir:
-        f = os.path.join(cache_dir, "micro_tables.pickle")
+        from .facts import code_hash
+        f = os.path.join(cache_dir, "micro_tables.%s.pickle" % code_hash())
         if os.path.exists(f):
             with open(f, "rb") as fh:
                 return pickle.load(fh)
